@@ -452,7 +452,7 @@ impl Prop for C03 {
         "fault_enumeration"
     }
     fn rule_text(&self) -> String {
-        "case = a valid configuration (shipped samples, configs embedded in docs and tests, grammar-generated configs) with one seeded fault on the storage seam: torn prefix, corrupted bytes near delimiters / multi-byte chars, lost/duplicated/reordered lines, unterminated string/comment, include/zippy/chords-v2 file missing / empty / self-including / included twice / not UTF-8 / a directory; plus structure-aware input mutations (delete/duplicate/splice sub-expressions, atom->(), name->unknown, $self-reference, number->boundary) labelled as mutation.* in 'fired'; plus a 'template-program' population (random deftemplate bodies and call arguments drawn from a pool that contains t!/template-expand, the template names incl. the template's own, variables, conditionals, nested lists - expansions that arise by substitution). Both new_from_str (in-memory file provider) and new_from_file (real files in a private tmpfs dir) are exercised. non-trivial = the text differs from its seed config and is non-empty; distinct = distinct (outcome class, hash of error message shape | accepted) x text hash.".into()
+        "case = a valid configuration (shipped samples, configs embedded in docs and tests, grammar-generated configs) with one seeded fault on the storage seam: torn prefix, corrupted bytes near delimiters / multi-byte chars, lost/duplicated/reordered lines, unterminated string/comment, include/zippy/chords-v2 file missing / empty / self-including / included twice / not UTF-8 / a directory; plus structure-aware input mutations (delete/duplicate/splice sub-expressions, atom->(), name->unknown, $self-reference, number->boundary) labelled as mutation.* in 'fired'; plus a 'deep-nesting' population (lists and actions nested 60 - 5000 levels deep, literally or through chains of variables / templates) and a 'template-program' population (random deftemplate bodies and call arguments drawn from a pool that contains t!/template-expand, the template names incl. the template's own, variables, conditionals, nested lists - expansions that arise by substitution). Both new_from_str (in-memory file provider) and new_from_file (real files in a private tmpfs dir) are exercised. non-trivial = the text differs from its seed config and is non-empty; distinct = distinct (outcome class, hash of error message shape | accepted) x text hash.".into()
     }
     fn runs(&self, tier: Tier) -> u64 {
         match tier {
@@ -463,6 +463,43 @@ impl Prop for C03 {
     fn gen(&self, seed: u64, _tier: Tier) -> Case {
         let mut r = Rng::new(seed);
         let mut case = Case { prop: "C03".into(), seed, ..Default::default() };
+        if r.chance(1) {
+            // 'deep-nesting' population: lists / actions nested hundreds or thousands of levels
+            // deep, written literally or built up through chains of variables and templates.
+            // Loading must end with a diagnostic, not with an exhausted stack.
+            let n = *r.pick(&[60usize, 127, 128, 129, 200, 600, 2000, 5000]);
+            let wrap = *r.pick(&[("(multi ", ")"), ("(tap-dance 200 (", "))"), ("(one-shot 100 ", ")"), ("(fork ", " b ())"), ("(tap-hold 10 10 a ", ")"), ("(macro ", ")"), ("(", ")"), ("(switch () ", " break)")]);
+            case.cfg = match r.below(5) {
+                0 | 1 => format!("(defsrc a)\n(deflayer l0 {}a{})\n", wrap.0.repeat(n), wrap.1.repeat(n)),
+                2 => {
+                    // chain of variables, each wrapping the previous one
+                    let m = n.min(600);
+                    let mut t = String::from("(defsrc a)\n(defvar v0 a\n");
+                    for i in 1..m {
+                        t.push_str(&format!(" v{i} {}$v{}{}\n", wrap.0, i - 1, wrap.1));
+                    }
+                    t.push_str(&format!(")\n(deflayer l0 $v{})\n", m - 1));
+                    t
+                }
+                3 => {
+                    let m = n.min(150);
+                    let mut t = String::from("(defsrc a)\n(deftemplate t0 () a)\n");
+                    for i in 1..m {
+                        t.push_str(&format!("(deftemplate t{i} () {}(t! t{}){})\n", wrap.0, i - 1, wrap.1));
+                    }
+                    t.push_str(&format!("(deflayer l0 (t! t{}))\n", m - 1));
+                    t
+                }
+                _ => format!("(defsrc a)\n(deflayer l0 a)\n({} {}x{})\n", r.pick(&["defalias q", "defcfg", "defvar w", "defchordsv2", "defseq s", "deftemplate tt ()", "defoverrides"]), "(".repeat(n), ")".repeat(n)),
+            };
+            case.set("base", "deep-nesting");
+            case.set("fault", "mutation.deep_nesting");
+            // same size bound as everything else (a cut leaves the nesting unbalanced, still deep)
+            if case.cfg.len() > 64 * 1024 {
+                case.cfg.truncate(64 * 1024);
+            }
+            return case;
+        }
         if r.chance(40) {
             case.cfg = gen_template_program(&mut r);
             case.set("base", "template-program");
@@ -616,7 +653,7 @@ impl Prop for C03 {
             }
         }
         if maxd > 64 {
-            return RunOut::skip("paren-depth>64");
+            o.count("probe.paren-depth>64", 1);
         }
         let (outcome, msg) = if case.param("via") == Some("file") {
             check_via_file(case, &mut o)
